@@ -245,10 +245,32 @@ class Body:
             if t['k'] == 'call':
                 self.calls.append(CallSite(self, i, t))
         self.call_at = {c.bb: c for c in self.calls}
+        # call sites in control-flow (reverse post-) order: block numbering says nothing once helper bodies and
+        # closures have been spliced in at the end of the block list
+        order = self._rpo_index()
+        self.calls.sort(key=lambda c: (order.get(c.bb, 1 << 30), c.bb))
         self.promoted = [Body(prog, dict(p, span=raw.get('span', {})), '%s::promoted[%d]' % (self.path, i))
                          for i, p in enumerate(raw.get('promoted', []))]
 
     # --- CFG -----------------------------------------------------------------------------
+    def _rpo_index(self):
+        seen = {0}
+        post = []
+        stack = [(0, iter(self.succ.get(0, [])))]
+        while stack:
+            node, it = stack[-1]
+            adv = False
+            for s2 in it:
+                if s2 not in seen:
+                    seen.add(s2)
+                    stack.append((s2, iter(self.succ.get(s2, []))))
+                    adv = True
+                    break
+            if not adv:
+                post.append(node)
+                stack.pop()
+        return {b: i for i, b in enumerate(reversed(post))}
+
     def _succs(self, i):
         t = self.blocks[i]['term']
         k = t['k']
@@ -1266,6 +1288,7 @@ class Program:
         raw_by_path = {r['path']: r for r in facts['bodies']}
         raw_by_path, spliced = expand_combinators(raw_by_path)
         merged, used = inline_helpers(raw_by_path, known)
+        merged = thread_all(merged)
         self.inlined_helpers = sorted(used)
         self.spliced_closures = sorted(spliced)
         for path, raw in merged.items():
@@ -2040,10 +2063,23 @@ def _shift_place(p, lo):
     return q
 
 
+_PROMO_OFF = [0]
+
+
 def _shift_op(o, lo):
     if o.get('k') in ('copy', 'move'):
         return dict(o, place=_shift_place(o['place'], lo))
+    if o.get('k') == 'const' and 'promoted' in o and _PROMO_OFF[0]:
+        return dict(o, promoted=o['promoted'] + _PROMO_OFF[0])
     return o
+
+
+def _merge_promoted(raw, callee):
+    """append the callee's promoted constants to the caller's table; copied operands are re-indexed by _shift_op"""
+    raw.setdefault('promoted', [])
+    _PROMO_OFF[0] = len(raw['promoted']) if callee.get('promoted') else 0
+    if callee.get('promoted'):
+        raw['promoted'].extend(_copy.deepcopy(callee['promoted']))
 
 
 def _shift_rv(rv, lo):
@@ -2147,8 +2183,10 @@ def inline_helpers(raw_by_path, known, max_rounds=6):
                     pl = {'l': lo + 1 + i, 'p': [], 'ty': callee['locals'][1 + i]['ty']}
                     blk['stmts'].append({'k': 'assign', 'place': pl, 'rv': {'k': 'use', 'op': a}, 'span': span})
                 dest, target = t['dest'], t['target']
+                _merge_promoted(cur, callee)
                 for cb in callee['blocks']:
                     cur['blocks'].append(_shift_block(cb, lo, bo, lo, dest, target))
+                _PROMO_OFF[0] = 0
                 blk['term'] = {'k': 'goto', 'target': bo, 'span': span}
                 used.add(tp)
                 changed = True
@@ -2158,6 +2196,32 @@ def inline_helpers(raw_by_path, known, max_rounds=6):
             thread_bool_constants(cur)
         out[path] = cur
     return out, used
+
+
+def thread_all(raw_by_path):
+    """`let flag = match x { A => true, B => <test> }; if flag {..}` written in place gets the same bool threading as
+    spliced code"""
+    out = {}
+    for path, raw in raw_by_path.items():
+        if _has_bool_join(raw):
+            cur = _copy.deepcopy(raw)
+            if thread_bool_constants(cur):
+                out[path] = cur
+                continue
+        out[path] = raw
+    return out
+
+
+def _has_bool_join(raw):
+    """cheap pre-test: some block ends in goto after assigning a bool constant to a whole local"""
+    for b in raw['blocks']:
+        if b.get('cleanup') or not b['stmts'] or b['term']['k'] != 'goto':
+            continue
+        last = b['stmts'][-1]
+        if last['k'] == 'assign' and not last['place']['p'] and last['rv']['k'] == 'use' and last['rv']['op'].get('k') == 'const' and \
+                isinstance(last['rv']['op'].get('val'), dict) and 'bool' in last['rv']['op']['val']:
+            return True
+    return False
 
 
 # ------------------------------------------------------------------------------------------
@@ -2585,8 +2649,10 @@ def _emit_closure_call(B, raw_by_path, clo_local, clo_path, arg_ops, dest, targe
         stmts.append(B.assign(B.place(lo + 2 + i, callee['locals'][2 + i]['ty']), {'k': 'use', 'op': a}, span))
     entry = B.block(stmts, None)
     bo = len(raw['blocks'])
+    _merge_promoted(raw, callee)
     for cb in callee['blocks']:
         raw['blocks'].append(_shift_block(cb, lo, bo, lo, dest, target))
+    _PROMO_OFF[0] = 0
     raw['blocks'][entry]['term'] = {'k': 'goto', 'target': bo, 'span': span}
     return entry
 
